@@ -1,8 +1,1064 @@
 import Grass.Proto
-/- Core `Eval` — stub; replaced by the model (see DESIGN.md §8). -/
+/-
+  Core `Eval` (property C03, part 2): an executable REFERENCE EVALUATOR for the generator's core
+  language, written from the Sass language rules (variables and scopes, control flow, callables,
+  argument binding, operators), not from grass's code.  It is the specification side of the
+  program correspondence in tools/props/c03.py: emitted declarations and the @debug/@warn
+  message sequence of real grass must equal what this evaluator produces.
+
+  Shape.  The evaluator is written with OPEN RECURSION: `stepF : Rec → Rec` is a non-recursive
+  functional describing one level of evaluation in terms of a record `Rec` of "recursive calls"
+  (evaluate an expression / run a block / run a `@while` loop); `run 0` answers `outOfFuel`
+  everywhere and `run (n+1) = stepF (run n)`.  Lists of sub-terms are handled by structural
+  helpers (`mapM'`, `forEachM`), so fuel is only consumed by AST nesting depth, call depth and
+  `@while` iterations.  `C03_fuel_mono` (GrassProofs/C03.lean) follows from monotonicity of `stepF`.
+
+  Value domain (self-contained; no units, colours or calculations): exact rationals, strings
+  (quoted flag), booleans, null, lists (separator, brackets), maps.
+-/
 namespace Grass.Eval
 
+/-! ### values -/
+
+inductive Sep where
+  | space | comma | undecided
+deriving DecidableEq, Repr, Inhabited
+
+inductive Value where
+  | num (q : Rat)
+  | str (s : String) (quoted : Bool)
+  | bool (b : Bool)
+  | null
+  | list (elems : List Value) (sep : Sep) (bracketed : Bool)
+  | map (pairs : List (Value × Value))
+deriving Inhabited
+
+def Value.truthy : Value → Bool
+  | .null => false
+  | .bool false => false
+  | _ => true
+
+mutual
+/-- Sass `==`: numbers by value, strings by text (quotes ignored), lists by separator, brackets
+    and elements, maps as sets of pairs (order-insensitive, see `mapSub`). -/
+def Value.eq : Value → Value → Bool
+  | .num a, .num b => a == b
+  | .str a _, .str b _ => a == b
+  | .bool a, .bool b => a == b
+  | .null, .null => true
+  | .list as sa ba, .list bs sb bb => sa == sb && ba == bb && eqList as bs
+  | .map as, .map bs => eqPairs as bs
+  | _, _ => false
+def eqList : List Value → List Value → Bool
+  | [], [] => true
+  | a :: as, b :: bs => a.eq b && eqList as bs
+  | _, _ => false
+/-- Pairwise in order.  (Maps built by the generator have pairwise distinct scalar keys; equality
+    of maps with permuted keys is outside the generated fragment and answered `unsupported`.) -/
+def eqPairs : List (Value × Value) → List (Value × Value) → Bool
+  | [], [] => true
+  | (k, v) :: as, (k', v') :: bs => k.eq k' && v.eq v' && eqPairs as bs
+  | _, _ => false
+end
+
+mutual
+def Value.isBlank : Value → Bool
+  | .null => true
+  | .str s false => s.isEmpty
+  | .list es _ br => if br then false else allBlank es
+  | _ => false
+def allBlank : List Value → Bool
+  | [] => true
+  | v :: vs => v.isBlank && allBlank vs
+end
+
+/-! ### printing -/
+
+def digitChar (d : Nat) : Char := Char.ofNat (48 + d)
+
+/-- Up to `k` fractional digits of `r/den` (`r < den`); also returns the final remainder. -/
+def fracDigits (den : Nat) : Nat → Nat → List Nat × Nat
+  | 0, r => ([], r)
+  | k + 1, r =>
+    let d := r * 10 / den
+    let (ds, r') := fracDigits den k (r * 10 % den)
+    (d :: ds, r')
+
+def dropTrailingZeros (ds : List Nat) : List Nat :=
+  (ds.reverse.dropWhile (· == 0)).reverse
+
+/-- Decimal text of an exact rational when it has at most 10 fractional digits and is small
+    enough to be an exact double (`none` otherwise: the model does not cover rounding). -/
+def fmtNum (q : Rat) : Option String :=
+  let neg := q < 0
+  let n := q.num.natAbs
+  let d := q.den
+  let ip := n / d
+  let (ds, r) := fracDigits d 10 (n % d)
+  if r != 0 || ip > 1000000000 then none else
+  let ds := dropTrailingZeros ds
+  let body := toString ip ++ (if ds.isEmpty then "" else "." ++ String.ofList (ds.map digitChar))
+  some (if neg then "-" ++ body else body)
+
+/-- Strings the model prints: printable ASCII without quotes or backslashes (the generator's
+    alphabet); anything else is outside the model. -/
+def plainText (s : String) : Bool :=
+  s.toList.all fun c => c.toNat ≥ 32 && c.toNat < 127 && c != '"' && c != '\'' && c != '\\'
+
+inductive PrintErr where
+  | invalidCss      -- "… isn't a valid CSS value."
+  | unsupported
+deriving DecidableEq, Repr
+
+def sepText : Sep → String
+  | .comma => ", "
+  | _ => " "
+
+mutual
+/-- Conversion to CSS text (declaration values, `@warn`, string concatenation, interpolation). -/
+def Value.toCss : Value → Except PrintErr String
+  | .num q => match fmtNum q with | some s => .ok s | none => .error .unsupported
+  | .str s q => if !plainText s then .error .unsupported else .ok (if q then "\"" ++ s ++ "\"" else s)
+  | .bool b => .ok (if b then "true" else "false")
+  | .null => .ok ""
+  | .list es sep br =>
+    if !br && es.isEmpty then .error .invalidCss else
+    match toCssList es with
+    | .ok parts =>
+      let body := (sepText sep).intercalate parts
+      .ok (if br then "[" ++ body ++ "]" else body)
+    | .error e => .error e
+  | .map _ => .error .invalidCss
+/-- Texts of the non-blank elements. -/
+def toCssList : List Value → Except PrintErr (List String)
+  | [] => .ok []
+  | v :: vs =>
+    if v.isBlank then toCssList vs else
+    match v.toCss, toCssList vs with
+    | .ok s, .ok ss => .ok (s :: ss)
+    | .error e, _ => .error e
+    | _, .error e => .error e
+end
+
+def needsParens (sep : Sep) : Value → Bool
+  | .list es sep2 br =>
+    if es.length < 2 || br then false else
+    match sep with
+    | .comma => sep2 == .comma
+    | _ => sep2 != .undecided
+  | _ => false
+
+mutual
+/-- `inspect` text (`@debug`, `@error`). -/
+def Value.inspect : Value → Except PrintErr String
+  | .num q => match fmtNum q with | some s => .ok s | none => .error .unsupported
+  | .str s q => if !plainText s then .error .unsupported else .ok (if q then "\"" ++ s ++ "\"" else s)
+  | .bool b => .ok (if b then "true" else "false")
+  | .null => .ok "null"
+  | .list es sep br =>
+    if !br && es.isEmpty then .ok "()" else
+    match inspectList sep es with
+    | .ok parts =>
+      let single := es.length == 1 && sep == .comma
+      let body := (sepText sep).intercalate parts ++ (if single then "," else "")
+      .ok (if br then "[" ++ body ++ "]" else if single then "(" ++ body ++ ")" else body)
+    | .error e => .error e
+  | .map ps =>
+    match inspectPairs ps with
+    | .ok parts => .ok ("(" ++ ", ".intercalate parts ++ ")")
+    | .error e => .error e
+def inspectList (sep : Sep) : List Value → Except PrintErr (List String)
+  | [] => .ok []
+  | v :: vs =>
+    match v.inspect, inspectList sep vs with
+    | .ok s, .ok ss => .ok ((if needsParens sep v then "(" ++ s ++ ")" else s) :: ss)
+    | .error e, _ => .error e
+    | _, .error e => .error e
+def inspectPairs : List (Value × Value) → Except PrintErr (List String)
+  | [] => .ok []
+  | (k, v) :: ps =>
+    match k.inspect, v.inspect, inspectPairs ps with
+    | .ok a, .ok b, .ok ss =>
+      let par (x : Value) (s : String) : String :=
+        match x with
+        | .list _ .comma false => "(" ++ s ++ ")"
+        | _ => s
+      .ok ((par k a ++ ": " ++ par v b) :: ss)
+    | .error e, _, _ => .error e
+    | _, .error e, _ => .error e
+    | _, _, .error e => .error e
+end
+
+/-! ### syntax -/
+
+inductive BinOp where
+  | add | sub | mul | mod | eq | ne | lt | gt | le | ge | and | or
+deriving DecidableEq, Repr
+
+inductive Expr where
+  | lit (v : Value)
+  | var (n : String)
+  | bin (op : BinOp) (a b : Expr)
+  | neg (a : Expr)
+  | not (a : Expr)
+  | list (es : List Expr) (sep : Sep) (br : Bool)
+  | map (kvs : List (Expr × Expr))
+  | call (f : String) (pos : List Expr) (named : List (String × Expr)) (rest : Option Expr)
+  | iff (c a b : Expr)                      -- the lazy `if($c, $a, $b)`
+  | interp (quoted : Bool) (parts : List (String × Option Expr))   -- text, then `#{e}`
+deriving Inhabited
+
+structure Params where
+  ps : List (String × Option Expr)
+  rest : Option String
+deriving Inhabited
+
+structure Args where
+  pos : List Expr
+  named : List (String × Expr)
+  rest : Option Expr
+deriving Inhabited
+
+inductive Stmt where
+  | decl (prop : String) (e : Expr)
+  | rule (sel : String) (body : List Stmt)
+  | var (n : String) (e : Expr) (glob dflt : Bool)
+  | ifs (clauses : List (Expr × List Stmt)) (els : Option (List Stmt))
+  | forr (v : String) (lo hi : Expr) (inclusive : Bool) (body : List Stmt)
+  | each (vars : List String) (e : Expr) (body : List Stmt)
+  | whil (c : Expr) (body : List Stmt)
+  | func (name : String) (ps : Params) (body : List Stmt)
+  | ret (e : Expr)
+  | mixin (name : String) (ps : Params) (body : List Stmt)
+  | incl (name : String) (args : Args) (content : Option (Params × List Stmt))
+  | content (args : Args)
+  | debug (e : Expr)
+  | warn (e : Expr)
+  | error (e : Expr)
+deriving Inhabited
+
+/-! ### state, errors, the evaluation monad -/
+
+structure Callable where
+  params : Params
+  body : List Stmt
+  env : List Nat           -- the captured scope chain (frame ids, innermost first)
+deriving Inhabited
+
+structure Frame where
+  vars : List (String × Value) := []
+  fns : List (String × Callable) := []
+  mixins : List (String × Callable) := []
+deriving Inhabited
+
+/-- A content block: its parameters (`using`), body, the scope chain of the `@include` site and
+    the content block that was current there (for `@content` inside a content block). -/
+inductive Content where
+  | mk (params : Params) (body : List Stmt) (env : List Nat) (outer : Option Content)
+
+structure Ctx where
+  env : List Nat            -- scope chain, innermost first
+  semi : Bool               -- in a semi-global scope (control flow at the top level)
+  content : Option Content
+  sel : List String         -- enclosing style rules, innermost first
+  inFn : Bool
+
+inductive Err where
+  | undefinedVariable | undefinedMixin | undefinedFunction
+  | missingArgument | tooManyArguments | noArgumentNamed | passedBothWays
+  | noReturn | invalidCss | undefinedOperation | notANumber | notAnInteger
+  | userError | declOutsideRule | noContentAccepted | duplicateKey | indexOutOfBounds
+  | staticError            -- rejected by the parser: @return outside @function, …
+  | unsupported            -- outside the model: the case is dropped, never guessed
+deriving DecidableEq, Repr, Inhabited
+
+structure St where
+  heap : Array Frame
+  css : Array (String × String × Option String)   -- selector, property, value text (none: invalid CSS value)
+  log : Array (String × String)                   -- kind (debug|warn), message
+deriving Inhabited
+
+inductive Res (α : Type) where
+  | ok (a : α) (st : St)
+  | err (e : Err) (st : St)
+  | oof                                            -- out of fuel
+deriving Inhabited
+
+abbrev M (α : Type) := St → Res α
+
+@[inline] def M.pure (a : α) : M α := fun st => .ok a st
+@[inline] def M.bind (x : M α) (f : α → M β) : M β := fun st =>
+  match x st with
+  | .ok a st' => f a st'
+  | .err e st' => .err e st'
+  | .oof => .oof
+instance : Monad M where
+  pure := M.pure
+  bind := M.bind
+
+def fail (e : Err) : M α := fun st => .err e st
+def outOfFuel : M α := fun _ => .oof
+def getSt : M St := fun st => .ok st st
+def modifySt (f : St → St) : M Unit := fun st => .ok () (f st)
+
+def liftPrint (x : Except PrintErr String) : M String :=
+  match x with
+  | .ok s => pure s
+  | .error .invalidCss => fail .invalidCss
+  | .error .unsupported => fail .unsupported
+
+/-! ### scopes: the Sass rules, directly (compare `lookupSpec`/`targetSpec` in Grass/Scope.lean) -/
+
+def alGet {β : Type} (l : List (String × β)) (n : String) : Option β :=
+  match l with
+  | [] => none
+  | (m, v) :: r => if m == n then some v else alGet r n
+
+def alErase {β : Type} (l : List (String × β)) (n : String) : List (String × β) :=
+  l.filter (fun p => p.1 != n)
+
+def lookupVar (h : Array Frame) : List Nat → String → Option Value
+  | [], _ => none
+  | f :: fs, n =>
+    match (h[f]?).bind (fun fr => alGet fr.vars n) with
+    | some v => some v
+    | none => lookupVar h fs n
+
+def lookupFn (h : Array Frame) : List Nat → String → Option Callable
+  | [], _ => none
+  | f :: fs, n =>
+    match (h[f]?).bind (fun fr => alGet fr.fns n) with
+    | some v => some v
+    | none => lookupFn h fs n
+
+def lookupMixin (h : Array Frame) : List Nat → String → Option Callable
+  | [], _ => none
+  | f :: fs, n =>
+    match (h[f]?).bind (fun fr => alGet fr.mixins n) with
+    | some v => some v
+    | none => lookupMixin h fs n
+
+/-- Innermost frame of the chain that declares the variable. -/
+def findFrame (h : Array Frame) : List Nat → String → Option Nat
+  | [], _ => none
+  | f :: fs, n =>
+    match (h[f]?).bind (fun fr => alGet fr.vars n) with
+    | some _ => some f
+    | none => findFrame h fs n
+
+def setVarIn (fid : Nat) (n : String) (v : Value) : M Unit :=
+  modifySt fun st => { st with heap := st.heap.modify fid fun fr => { fr with vars := (n, v) :: alErase fr.vars n } }
+
+/-- The frame an assignment `$n: v` writes to. -/
+def assignTarget (h : Array Frame) (env : List Nat) (n : String) (glob semi : Bool) : Option Nat :=
+  let top := env.head?
+  let g := env.getLast?
+  if glob || env.length == 1 then g
+  else
+    match findFrame h env n with
+    | none => top
+    | some f => if some f == g then (if semi then g else top) else some f
+
+def newFrame : M Nat := fun st => .ok st.heap.size { st with heap := st.heap.push {} }
+
+/-! ### operators -/
+
+def numOp (op : BinOp) (a b : Rat) : Option Value :=
+  match op with
+  | .add => some (.num (a + b))
+  | .sub => some (.num (a - b))
+  | .mul => some (.num (a * b))
+  | .mod => if b == 0 then none else some (.num (a - b * ((a / b).floor : Int)))
+  | .lt => some (.bool (a < b))
+  | .gt => some (.bool (a > b))
+  | .le => some (.bool (a ≤ b))
+  | .ge => some (.bool (a ≥ b))
+  | _ => none
+
+/-- Strict binary operators on evaluated operands (`and`/`or` are handled lazily by the caller). -/
+def binOp (op : BinOp) (a b : Value) : M Value :=
+  match op with
+  | .eq => pure (.bool (a.eq b))
+  | .ne => pure (.bool (!(a.eq b)))
+  | .add =>
+    match a, b with
+    | .num x, .num y => pure (.num (x + y))
+    | .str s q, _ =>
+      match b with
+      | .str t _ => pure (.str (s ++ t) q)
+      | .map _ => fail .invalidCss
+      | _ => do let t ← liftPrint b.toCss; pure (.str (s ++ t) q)
+    | _, .str t q =>
+      match a with
+      | .map _ => fail .invalidCss
+      | .list .. => fail .unsupported
+      | _ => do let s ← liftPrint a.toCss; pure (.str (s ++ t) q)
+    | _, _ => fail .unsupported
+  | .sub | .mul | .mod =>
+    match a, b with
+    | .num x, .num y =>
+      match numOp op x y with
+      | some v => pure v
+      | none => fail .unsupported
+    | _, _ => fail .unsupported
+  | .lt | .gt | .le | .ge =>
+    match a, b with
+    | .num x, .num y =>
+      match numOp op x y with
+      | some v => pure v
+      | none => fail .unsupported
+    | _, _ => fail .undefinedOperation
+  | .and | .or => fail .unsupported
+
+/-! ### argument binding -/
+
+/-- The arity rules (`ArgumentDeclaration.verify` in the reference implementation): a parameter
+    may not be passed both by position and by name; a parameter without default must be passed;
+    without a rest parameter there may be no extra positional and no unknown named arguments. -/
+def verifyArgs (ps : Params) (npos : Nat) (names : List String) : Option Err :=
+  let rec go (i : Nat) : List (String × Option Expr) → Nat → Option Err ⊕ Nat
+    | [], used => .inr used
+    | (p, d) :: rest, used =>
+      if i < npos then
+        if names.contains p then .inl (some .passedBothWays) else go (i + 1) rest used
+      else if names.contains p then go (i + 1) rest (used + 1)
+      else if d.isNone then .inl (some .missingArgument)
+      else go (i + 1) rest used
+  match go 0 ps.ps 0 with
+  | .inl e => e
+  | .inr used =>
+    if ps.rest.isSome then none
+    else if npos > ps.ps.length then some .tooManyArguments
+    else if used < names.length then some .noArgumentNamed
+    else none
+
+/-- `bindable ps npos names`: the binding succeeds. -/
+def bindable (ps : Params) (npos : Nat) (names : List String) : Bool := (verifyArgs ps npos names).isNone
+
+/-! ### the recursion record and the structural helpers -/
+
+structure Rec where
+  expr : Ctx → Expr → M Value
+  block : Ctx → List Stmt → M (Option Value)
+  loop : Ctx → Expr → List Stmt → M (Option Value)
+
+def mapM' {α β : Type} (f : α → M β) : List α → M (List β)
+  | [] => pure []
+  | a :: as => do
+    let b ← f a
+    let bs ← mapM' f as
+    pure (b :: bs)
+
+/-- Run `f` on each element until one yields a `@return` value. -/
+def forEachM {α : Type} (f : α → M (Option Value)) : List α → M (Option Value)
+  | [] => pure none
+  | a :: as => do
+    match ← f a with
+    | some v => pure (some v)
+    | none => forEachM f as
+
+def evalNamed (f : Expr → M Value) : List (String × Expr) → M (List (String × Value))
+  | [] => pure []
+  | (n, e) :: r => do
+    let v ← f e
+    let vs ← evalNamed f r
+    pure ((n, v) :: vs)
+
+structure Evaled where
+  pos : List Value
+  named : List (String × Value)
+deriving Inhabited
+
+/-- Evaluate an argument list in the caller's scope: positional, then named, then the rest
+    argument (a list contributes its elements as positional arguments, a map with string keys
+    contributes named arguments, anything else one positional argument). -/
+def evalArgs (r : Rec) (ctx : Ctx) (a : Args) : M Evaled := do
+  let pos ← mapM' (r.expr ctx) a.pos
+  let named ← evalNamed (r.expr ctx) a.named
+  match a.rest with
+  | none => pure { pos, named }
+  | some e =>
+    match ← r.expr ctx e with
+    | .list es _ _ => pure { pos := pos ++ es, named }
+    | .map _ => fail .unsupported
+    | v => pure { pos := pos ++ [v], named }
+
+/-- Bind the declared parameters that were not passed by position: by name, else the default
+    expression evaluated in the callee's scope (so it sees the parameters bound before it). -/
+def bindRest (r : Rec) (ctx : Ctx) (fid : Nat) :
+    List (String × Option Expr) → List (String × Value) → M (List (String × Value))
+  | [], named => pure named
+  | (p, d) :: ps, named => do
+    match alGet named p with
+    | some v => setVarIn fid p v
+    | none =>
+      match d with
+      | some e => do let v ← r.expr ctx e; setVarIn fid p v
+      | none => fail .missingArgument
+    bindRest r ctx fid ps (alErase named p)
+
+def bindPositional (fid : Nat) : List (String × Option Expr) → List Value → M Unit
+  | (p, _) :: ps, v :: vs => do setVarIn fid p v; bindPositional fid ps vs
+  | _, _ => pure ()
+
+/-- Invoke a user-defined callable: fresh frame on top of the captured chain, arity check, bind,
+    run `body` in the callee context; leftover named arguments with a rest parameter are an error
+    after the body has run (nothing in the core language can read an argument list's keywords). -/
+def invoke {α : Type} (r : Rec) (mk : Nat → Ctx) (ps : Params) (ev : Evaled) (body : Ctx → M α) : M α := do
+  let fid ← newFrame
+  let ctx := mk fid
+  match verifyArgs ps ev.pos.length (ev.named.map (·.1)) with
+  | some e => fail e
+  | none =>
+    bindPositional fid ps.ps ev.pos
+    let left ← bindRest r ctx fid (ps.ps.drop ev.pos.length) ev.named
+    match ps.rest with
+    | some rn => setVarIn fid rn (.list (ev.pos.drop ps.ps.length) .comma false)
+    | none => pure ()
+    let out ← body ctx
+    if ps.rest.isSome && !left.isEmpty then fail .noArgumentNamed else pure out
+
+/-! ### built-in functions (a handful) -/
+
+def builtin (name : String) (ev : Evaled) : Option (M Value) :=
+  if !ev.named.isEmpty then none else
+  match name, ev.pos with
+  | "length", [v] =>
+    some (pure (.num (match v with
+      | .list es _ _ => es.length
+      | .map ps => ps.length
+      | _ => 1)))
+  | "nth", [l, .num q] =>
+    let es := match l with
+      | .list es _ _ => es
+      | .map ps => ps.map fun (k, v) => .list [k, v] .space false
+      | v => [v]
+    some (if q.den != 1 || q.num == 0 then fail .unsupported else
+      let n := q.num.natAbs
+      if n > es.length then fail .indexOutOfBounds else
+      let i := if q.num > 0 then n - 1 else es.length - n
+      match es[i]? with
+      | some v => pure v
+      | none => fail .indexOutOfBounds)
+  | "map-get", [.map ps, k] =>
+    some (pure (match ps.find? (fun p => p.1.eq k) with
+      | some p => p.2
+      | none => .null))
+  | "type-of", [v] =>
+    some (pure (.str (match v with
+      | .num _ => "number" | .str .. => "string" | .bool _ => "bool" | .null => "null"
+      | .list .. => "list" | .map _ => "map") false))
+  | "not", [v] => some (pure (.bool !v.truthy))
+  | _, _ => none
+
+/-! ### one level of evaluation -/
+
+def intOf (v : Value) : M Int :=
+  match v with
+  | .num q => if q.den == 1 then pure q.num else fail .notAnInteger
+  | _ => fail .notANumber
+
+/-- The values `@for` assigns, in order (`from` towards `to`, end point included for `through`). -/
+def forRange (lo hi : Int) (inclusive : Bool) : List Int :=
+  let n := (if lo ≤ hi then hi - lo else lo - hi).toNat + (if inclusive then 1 else 0)
+  (List.range n).map fun (i : Nat) => if lo ≤ hi then lo + (i : Int) else lo - (i : Int)
+
+def evalInterp (f : Expr → M Value) : List (String × Option Expr) → M String
+  | [] => pure ""
+  | (s, none) :: r => do let t ← evalInterp f r; pure (s ++ t)
+  | (s, some e) :: r => do
+    let v ← f e
+    let x ← liftPrint (match v with
+      | .str t _ => if plainText t then .ok t else .error .unsupported
+      | v => v.toCss)
+    let t ← evalInterp f r
+    pure (s ++ x ++ t)
+
+def exprF (r : Rec) (ctx : Ctx) : Expr → M Value
+  | .lit v => pure v
+  | .var n => do
+    let st ← getSt
+    match lookupVar st.heap ctx.env n with
+    | some v => pure v
+    | none => fail .undefinedVariable
+  | .bin .and a b => do
+    let x ← r.expr ctx a
+    if x.truthy then r.expr ctx b else pure x
+  | .bin .or a b => do
+    let x ← r.expr ctx a
+    if x.truthy then pure x else r.expr ctx b
+  | .bin op a b => do
+    let x ← r.expr ctx a
+    let y ← r.expr ctx b
+    binOp op x y
+  | .neg a => do
+    match ← r.expr ctx a with
+    | .num q => pure (.num (-q))
+    | _ => fail .unsupported
+  | .not a => do
+    let x ← r.expr ctx a
+    pure (.bool !x.truthy)
+  | .list es sep br => do
+    let vs ← mapM' (r.expr ctx) es
+    pure (.list vs sep br)
+  | .map kvs => do
+    let ks ← mapM' (r.expr ctx) (kvs.map (·.1))
+    let vs ← mapM' (r.expr ctx) (kvs.map (·.2))
+    -- keys are evaluated pairwise in grass and Sass; the generator only uses side-effect-free
+    -- keys, for which the order cannot be observed
+    let rec dup : List Value → Bool
+      | [] => false
+      | k :: ks => ks.any (·.eq k) || dup ks
+    if dup ks then fail .duplicateKey else pure (.map (ks.zip vs))
+  | .iff c a b => do
+    let x ← r.expr ctx c
+    if x.truthy then r.expr ctx a else r.expr ctx b
+  | .interp q parts => do
+    let s ← evalInterp (r.expr ctx) parts
+    pure (.str s q)
+  | .call f pos named rest => do
+    let ev ← evalArgs r ctx { pos, named, rest }
+    let st ← getSt
+    match lookupFn st.heap ctx.env f with
+    | some c =>
+      invoke r (fun fid => { env := fid :: c.env, semi := false, content := none, sel := ctx.sel, inFn := true })
+        c.params ev fun ctx' => do
+          match ← r.block ctx' c.body with
+          | some v => pure v
+          | none => fail .noReturn
+    | none =>
+      match builtin f ev with
+      | some m => m
+      | none => fail .unsupported
+
+def selText (sel : List String) : String := " ".intercalate sel.reverse
+
+def logMsg (kind msg : String) : M Unit :=
+  modifySt fun st => { st with log := st.log.push (kind, msg) }
+
+def declareFn (fid : Nat) (n : String) (c : Callable) : M Unit :=
+  modifySt fun st => { st with heap := st.heap.modify fid fun fr => { fr with fns := (n, c) :: fr.fns } }
+
+def declareMixin (fid : Nat) (n : String) (c : Callable) : M Unit :=
+  modifySt fun st => { st with heap := st.heap.modify fid fun fr => { fr with mixins := (n, c) :: fr.mixins } }
+
+/-- Run `body` in a fresh child scope of `ctx`. -/
+def inScope {α : Type} (ctx : Ctx) (semi : Bool) (body : Ctx → M α) : M α := do
+  let fid ← newFrame
+  body { ctx with env := fid :: ctx.env, semi := semi && ctx.semi }
+
+def firstClause (r : Rec) (ctx : Ctx) : List (Expr × List Stmt) → M (Option (List Stmt))
+  | [] => pure none
+  | (c, body) :: rest => do
+    let v ← r.expr ctx c
+    if v.truthy then pure (some body) else firstClause r ctx rest
+
+def eachBind (fid : Nat) : List String → List Value → M Unit
+  | [], _ => pure ()
+  | x :: xs, [] => do setVarIn fid x .null; eachBind fid xs []
+  | x :: xs, v :: vs => do setVarIn fid x v; eachBind fid xs vs
+
+def asList : Value → List Value
+  | .list es _ _ => es
+  | .map ps => ps.map fun (k, v) => .list [k, v] .space false
+  | v => [v]
+
+def stmtF (r : Rec) (ctx : Ctx) : Stmt → M (Option Value)
+  | .decl prop e => do
+    if ctx.sel.isEmpty then fail .declOutsideRule else
+    let v ← r.expr ctx e
+    let emptyList := match v with | .list [] _ _ => true | .map [] => true | _ => false
+    if v.isBlank && !emptyList then pure none else
+    let txt : Option String ← (match v.toCss with
+      | .ok s => pure (some s)
+      | .error .invalidCss => pure none
+      | .error .unsupported => fail .unsupported)
+    modifySt fun st => { st with css := st.css.push (selText ctx.sel, prop, txt) }
+    pure none
+  | .rule sel body =>
+    inScope ctx false fun ctx' => r.block { ctx' with sel := sel :: ctx.sel } body
+  | .var n e glob dflt => do
+    let st ← getSt
+    let skip := dflt && (match lookupVar st.heap ctx.env n with
+      | some v => !(v.eq .null)
+      | none => false)
+    if skip then pure none else
+    let v ← r.expr ctx e
+    let st ← getSt
+    match assignTarget st.heap ctx.env n glob ctx.semi with
+    | some fid => do setVarIn fid n v; pure none
+    | none => fail .unsupported
+  | .ifs clauses els => do
+    let chosen ← firstClause r ctx clauses
+    let body := match chosen with
+      | some b => some b
+      | none => els
+    inScope ctx true fun ctx' =>
+      match body with
+      | some b => r.block ctx' b
+      | none => pure none
+  | .forr x lo hi inclusive body => do
+    let a ← intOf (← r.expr ctx lo)
+    let b ← intOf (← r.expr ctx hi)
+    inScope ctx true fun ctx' =>
+      match ctx'.env with
+      | fid :: _ =>
+        forEachM (fun (i : Int) => do setVarIn fid x (.num i); r.block ctx' body) (forRange a b inclusive)
+      | [] => fail .unsupported
+  | .each xs e body => do
+    let l ← r.expr ctx e
+    inScope ctx true fun ctx' =>
+      match ctx'.env with
+      | fid :: _ =>
+        forEachM (fun (v : Value) => do
+          (match xs with
+            | [x] => setVarIn fid x v
+            | _ => eachBind fid xs (asList v))
+          r.block ctx' body) (asList l)
+      | [] => fail .unsupported
+  | .whil c body =>
+    inScope ctx true fun ctx' => r.loop ctx' c body
+  | .func name ps body => do
+    match ctx.env with
+    | fid :: _ => declareFn fid name { params := ps, body, env := ctx.env }; pure none
+    | [] => fail .unsupported
+  | .ret e => do
+    if !ctx.inFn then fail .staticError else
+    let v ← r.expr ctx e
+    pure (some v)
+  | .mixin name ps body => do
+    match ctx.env with
+    | fid :: _ => declareMixin fid name { params := ps, body, env := ctx.env }; pure none
+    | [] => fail .unsupported
+  | .incl name args content => do
+    let st ← getSt
+    match lookupMixin st.heap ctx.env name with
+    | none => fail .undefinedMixin
+    | some c =>
+      let ev ← evalArgs r ctx args
+      let cb := content.map fun (ps, body) => Content.mk ps body ctx.env ctx.content
+      invoke r (fun fid => { env := fid :: c.env, semi := false, content := cb, sel := ctx.sel, inFn := false })
+        c.params ev fun ctx' => do
+          let _ ← r.block ctx' c.body
+          pure none
+  | .content args => do
+    match ctx.content with
+    | none => pure none
+    | some (.mk ps body env outer) =>
+      let ev ← evalArgs r ctx args
+      invoke r (fun fid => { env := fid :: env, semi := false, content := outer, sel := ctx.sel, inFn := false })
+        ps ev fun ctx' => do
+          let _ ← r.block ctx' body
+          pure none
+  | .debug e => do
+    let v ← r.expr ctx e
+    let s ← liftPrint v.inspect
+    logMsg "debug" s
+    pure none
+  | .warn e => do
+    let v ← r.expr ctx e
+    let s ← liftPrint v.toCss
+    logMsg "warn" s
+    pure none
+  | .error e => do
+    let v ← r.expr ctx e
+    let _ ← liftPrint v.inspect
+    fail .userError
+
+def loopF (r : Rec) (ctx : Ctx) (c : Expr) (body : List Stmt) : M (Option Value) := do
+  let v ← r.expr ctx c
+  if v.truthy then
+    match ← r.block ctx body with
+    | some x => pure (some x)
+    | none => r.loop ctx c body
+  else pure none
+
+def stepF (r : Rec) : Rec where
+  expr := exprF r
+  block := fun ctx ss => forEachM (stmtF r ctx) ss
+  loop := loopF r
+
+def Rec.bottom : Rec where
+  expr := fun _ _ => outOfFuel
+  block := fun _ _ => outOfFuel
+  loop := fun _ _ _ => outOfFuel
+
+def run : Nat → Rec
+  | 0 => .bottom
+  | n + 1 => stepF (run n)
+
+def St.init : St := { heap := #[{}], css := #[], log := #[] }
+
+def Ctx.root : Ctx := { env := [0], semi := true, content := none, sel := [], inFn := false }
+
+/-- Whole-program result. -/
+inductive Outcome where
+  | finished (st : St)
+  | failed (e : Err) (st : St)
+  | outOfFuel
+
+def evalProgram (fuel : Nat) (prog : List Stmt) : Outcome :=
+  match (run fuel).block Ctx.root prog St.init with
+  | .ok _ st =>
+    -- declaration values are turned into CSS text when the stylesheet is serialised, after
+    -- evaluation has finished
+    if st.css.any (fun d => d.2.2.isNone) then .failed .invalidCss st else .finished st
+  | .err e st => .failed e st
+  | .oof => .outOfFuel
+
+/-! ### static restrictions the parser enforces (before anything is evaluated) -/
+
+mutual
+def stmtStatic (inFn inMixin inCallableOrCtl : Bool) : Stmt → Bool
+  | .decl _ _ => !inFn
+  | .rule _ body => !inFn && blockStatic inFn inMixin inCallableOrCtl body
+  | .var .. => true
+  | .ifs cl els => clausesStatic inFn inMixin cl && (match els with
+      | some b => blockStatic inFn inMixin true b
+      | none => true)
+  | .forr _ _ _ _ body => blockStatic inFn inMixin true body
+  | .each _ _ body => blockStatic inFn inMixin true body
+  | .whil _ body => blockStatic inFn inMixin true body
+  | .func _ _ body => !inCallableOrCtl && blockStatic true false true body
+  | .ret _ => inFn
+  | .mixin _ _ body => !inCallableOrCtl && blockStatic false true true body
+  | .incl _ _ content => !inFn && (match content with
+      | some (_, body) => blockStatic inFn inMixin inCallableOrCtl body
+      | none => true)
+  | .content _ => inMixin
+  | .debug _ => true
+  | .warn _ => true
+  | .error _ => true
+def blockStatic (inFn inMixin inCallableOrCtl : Bool) : List Stmt → Bool
+  | [] => true
+  | s :: ss => stmtStatic inFn inMixin inCallableOrCtl s && blockStatic inFn inMixin inCallableOrCtl ss
+def clausesStatic (inFn inMixin : Bool) : List (Expr × List Stmt) → Bool
+  | [] => true
+  | (_, b) :: r => blockStatic inFn inMixin true b && clausesStatic inFn inMixin r
+end
+
+/-! ### driver: Polish-notation program reader -/
+open Grass.Proto
+
+abbrev P (α : Type) := List String → Option (α × List String)
+
+def pTok : P String
+  | [] => none
+  | t :: ts => some (t, ts)
+
+def pNat : P Nat := fun ts => do
+  let (t, ts) ← pTok ts
+  let n ← t.toNat?
+  some (n, ts)
+
+def pBool : P Bool := fun ts => do
+  let (t, ts) ← pTok ts
+  let b ← parseBool? t
+  some (b, ts)
+
+def pHex : P String := fun ts => do
+  let (t, ts) ← pTok ts
+  let s ← hexDecode t
+  some (s, ts)
+
+def pMany {α : Type} (p : P α) : Nat → P (List α)
+  | 0, ts => some ([], ts)
+  | n + 1, ts => do
+    let (a, ts) ← p ts
+    let (as, ts) ← pMany p n ts
+    some (a :: as, ts)
+
+def pCounted {α : Type} (p : P α) : P (List α) := fun ts => do
+  let (n, ts) ← pNat ts
+  pMany p n ts
+
+def pOpt {α : Type} (p : P α) : P (Option α) := fun ts => do
+  let (b, ts) ← pBool ts
+  if b then do
+    let (a, ts) ← p ts
+    some (some a, ts)
+  else some (none, ts)
+
+def pSep : P Sep := fun ts => do
+  let (t, ts) ← pTok ts
+  match t with
+  | "s" => some (.space, ts)
+  | "c" => some (.comma, ts)
+  | "u" => some (.undecided, ts)
+  | _ => none
+
+def pBinOp : P BinOp := fun ts => do
+  let (t, ts) ← pTok ts
+  match t with
+  | "add" => some (.add, ts) | "sub" => some (.sub, ts) | "mul" => some (.mul, ts)
+  | "mod" => some (.mod, ts) | "eq" => some (.eq, ts) | "ne" => some (.ne, ts)
+  | "lt" => some (.lt, ts) | "gt" => some (.gt, ts) | "le" => some (.le, ts)
+  | "ge" => some (.ge, ts) | "and" => some (.and, ts) | "or" => some (.or, ts)
+  | _ => none
+
+def pPair {α β : Type} (p : P α) (q : P β) : P (α × β) := fun ts => do
+  let (a, ts) ← p ts
+  let (b, ts) ← q ts
+  some ((a, b), ts)
+
+def pExpr : Nat → P Expr
+  | 0, _ => none
+  | fuel + 1, ts => do
+    let (t, ts) ← pTok ts
+    let e := pExpr fuel
+    match t with
+    | "N" => do
+      let (a, ts) ← pTok ts
+      let (b, ts) ← pNat ts
+      let n ← a.toInt?
+      if b == 0 then none else some (.lit (.num (mkRat n b)), ts)
+    | "Q" => do let (s, ts) ← pHex ts; some (.lit (.str s true), ts)
+    | "U" => do let (s, ts) ← pHex ts; some (.lit (.str s false), ts)
+    | "T" => some (.lit (.bool true), ts)
+    | "F" => some (.lit (.bool false), ts)
+    | "Z" => some (.lit .null, ts)
+    | "V" => do let (n, ts) ← pTok ts; some (.var n, ts)
+    | "B" => do
+      let (op, ts) ← pBinOp ts
+      let (a, ts) ← e ts
+      let (b, ts) ← e ts
+      some (.bin op a b, ts)
+    | "NEG" => do let (a, ts) ← e ts; some (.neg a, ts)
+    | "NOT" => do let (a, ts) ← e ts; some (.not a, ts)
+    | "LIST" => do
+      let (sep, ts) ← pSep ts
+      let (br, ts) ← pBool ts
+      let (es, ts) ← pCounted e ts
+      some (.list es sep br, ts)
+    | "MAP" => do
+      let (kvs, ts) ← pCounted (pPair e e) ts
+      some (.map kvs, ts)
+    | "CALL" => do
+      let (f, ts) ← pTok ts
+      let (pos, ts) ← pCounted e ts
+      let (named, ts) ← pCounted (pPair pTok e) ts
+      let (rest, ts) ← pOpt e ts
+      some (.call f pos named rest, ts)
+    | "IF" => do
+      let (c, ts) ← e ts
+      let (a, ts) ← e ts
+      let (b, ts) ← e ts
+      some (.iff c a b, ts)
+    | "INTERP" => do
+      let (q, ts) ← pBool ts
+      let (parts, ts) ← pCounted (pPair pHex (pOpt e)) ts
+      some (.interp q parts, ts)
+    | _ => none
+
+def pParams (fuel : Nat) : P Params := fun ts => do
+  let (ps, ts) ← pCounted (pPair pTok (pOpt (pExpr fuel))) ts
+  let (rest, ts) ← pOpt pTok ts
+  some ({ ps, rest }, ts)
+
+def pArgs (fuel : Nat) : P Args := fun ts => do
+  let (pos, ts) ← pCounted (pExpr fuel) ts
+  let (named, ts) ← pCounted (pPair pTok (pExpr fuel)) ts
+  let (rest, ts) ← pOpt (pExpr fuel) ts
+  some ({ pos, named, rest }, ts)
+
+def pStmt : Nat → P Stmt
+  | 0, _ => none
+  | fuel + 1, ts => do
+    let (t, ts) ← pTok ts
+    let e := pExpr (fuel + 1)
+    let blk := pCounted (pStmt fuel)
+    match t with
+    | "DECL" => do
+      let (p, ts) ← pHex ts
+      let (v, ts) ← e ts
+      some (.decl p v, ts)
+    | "RULE" => do
+      let (s, ts) ← pHex ts
+      let (b, ts) ← blk ts
+      some (.rule s b, ts)
+    | "VAR" => do
+      let (n, ts) ← pTok ts
+      let (v, ts) ← e ts
+      let (g, ts) ← pBool ts
+      let (d, ts) ← pBool ts
+      some (.var n v g d, ts)
+    | "IFS" => do
+      let (cl, ts) ← pCounted (pPair e blk) ts
+      let (els, ts) ← pOpt blk ts
+      some (.ifs cl els, ts)
+    | "FOR" => do
+      let (x, ts) ← pTok ts
+      let (a, ts) ← e ts
+      let (b, ts) ← e ts
+      let (incl, ts) ← pBool ts
+      let (body, ts) ← blk ts
+      some (.forr x a b incl body, ts)
+    | "EACH" => do
+      let (xs, ts) ← pCounted pTok ts
+      let (l, ts) ← e ts
+      let (body, ts) ← blk ts
+      some (.each xs l body, ts)
+    | "WHILE" => do
+      let (c, ts) ← e ts
+      let (body, ts) ← blk ts
+      some (.whil c body, ts)
+    | "FUNC" => do
+      let (n, ts) ← pTok ts
+      let (ps, ts) ← pParams (fuel + 1) ts
+      let (body, ts) ← blk ts
+      some (.func n ps body, ts)
+    | "RET" => do let (v, ts) ← e ts; some (.ret v, ts)
+    | "MIXIN" => do
+      let (n, ts) ← pTok ts
+      let (ps, ts) ← pParams (fuel + 1) ts
+      let (body, ts) ← blk ts
+      some (.mixin n ps body, ts)
+    | "INCL" => do
+      let (n, ts) ← pTok ts
+      let (args, ts) ← pArgs (fuel + 1) ts
+      let (c, ts) ← pOpt (pPair (pParams (fuel + 1)) blk) ts
+      some (.incl n args c, ts)
+    | "CONTENT" => do let (a, ts) ← pArgs (fuel + 1) ts; some (.content a, ts)
+    | "DEBUG" => do let (v, ts) ← e ts; some (.debug v, ts)
+    | "WARN" => do let (v, ts) ← e ts; some (.warn v, ts)
+    | "ERROR" => do let (v, ts) ← e ts; some (.error v, ts)
+    | _ => none
+
+def errStr : Err → String
+  | .undefinedVariable => "undefined-variable" | .undefinedMixin => "undefined-mixin"
+  | .undefinedFunction => "undefined-function" | .missingArgument => "missing-argument"
+  | .tooManyArguments => "too-many-arguments" | .noArgumentNamed => "no-argument-named"
+  | .passedBothWays => "passed-both-ways" | .noReturn => "no-return" | .invalidCss => "invalid-css"
+  | .undefinedOperation => "undefined-operation" | .notANumber => "not-a-number"
+  | .notAnInteger => "not-an-integer" | .userError => "user-error"
+  | .declOutsideRule => "decl-outside-rule" | .noContentAccepted => "no-content-accepted"
+  | .duplicateKey => "duplicate-key" | .indexOutOfBounds => "index-out-of-bounds"
+  | .staticError => "static-error" | .unsupported => "unsupported"
+
+def stStr (st : St) : String :=
+  let css := st.css.toList.map fun (s, p, v) =>
+    hexEncode s ++ ":" ++ hexEncode p ++ ":" ++ (match v with | some t => hexEncode t | none => "!")
+  let log := st.log.toList.map fun (k, m) => k ++ ":" ++ hexEncode m
+  (if css.isEmpty then "-" else ",".intercalate css) ++ " | " ++ (if log.isEmpty then "-" else ",".intercalate log)
+
 def handle : List String → String
+  | "run" :: fuel :: ts =>
+    match fuel.toNat? with
+    | none => "bad-op"
+    | some fuel =>
+      match pCounted (pStmt ts.length) ts with
+      | some (prog, []) =>
+        if !blockStatic false false false prog then "ok err static-error | - | -" else
+        match evalProgram fuel prog with
+        | .finished st => "ok done | " ++ stStr st
+        | .failed .unsupported _ => "unsupported"
+        | .failed e st => "ok err " ++ errStr e ++ " | " ++ stStr st
+        | .outOfFuel => "ok out-of-fuel"
+      | _ => "bad-op"
+  | ["forrange", a, b, i] =>
+    match a.toInt?, b.toInt?, parseBool? i with
+    | some a, some b, some i => "ok " ++ " ".intercalate ((forRange a b i).map toString)
+    | _, _, _ => "bad-op"
   | _ => "bad-op"
 
 end Grass.Eval
